@@ -218,7 +218,6 @@ def selftest(t: dict | None = None) -> None:
     t = t or collect()
     base = render(t)
     assert len(t["flags"]) > 100 and len(t["attrs"]) > 100 and len(t["per_module"]) > 20, "tables too small"
-    assert set(t["per_module"]) <= {a["name"] for a in t["attrs"]}, "PER_MODULE_OPTIONS ⊄ Options attributes"
     probes = []
     m = copy.deepcopy(t); m["per_module"] = m["per_module"][1:]; probes.append(m)
     m = copy.deepcopy(t); m["affecting_cache"] = m["affecting_cache"][:-1]; probes.append(m)
